@@ -11,7 +11,7 @@
 
 mod reference;
 
-use std::collections::{BTreeMap, HashSet};
+use std::collections::{BTreeMap, HashMap, HashSet};
 use std::num::NonZero;
 use std::sync::Mutex;
 use std::sync::atomic::{AtomicUsize, Ordering};
@@ -145,6 +145,8 @@ outcomes! {
     MED_NONE = "median:none",
     MED_ODD = "median:odd",
     MED_EVEN = "median:even",
+    SEL_ORBIT_INFORMATIVE = "selection:permutation-orbit:some-orderings-less-extreme",
+    SEL_ORBIT_ALL_EXTREME = "selection:permutation-orbit:all-orderings-at-least-as-extreme",
     MED_ODD_GIANT = "median:odd:extreme-magnitude",
     MED_EVEN_GIANT = "median:even:extreme-magnitude",
     TS_GIANT = "theil_sen:extreme-magnitude",
@@ -706,6 +708,113 @@ fn selection_calibration() -> SelectionCalibration {
     }
 }
 
+/// Calibration under which `adjusted_p` is the pure permutation p-value: the analytic component
+/// gets (almost) no weight, so `analytic / weight` saturates at 1 for every series of this family
+/// (the analytic bound is at least the smallest attainable exact p-value, >= 2/C(7,3)), it can never
+/// be "decisive", nothing is rejected early, and the budget admits the full orbit up to 8 points.
+const PERM_ANALYTIC_WEIGHT: f64 = 1e-9;
+fn permutation_only_calibration() -> SelectionCalibration {
+    SelectionCalibration {
+        permutation_order_budget: NonZero::new(50_000).unwrap(),
+        analytic_weight: PERM_ANALYTIC_WEIGHT,
+        accept_analytic_below: 1e-300,
+        reject_at_or_above: 1.0,
+    }
+}
+
+/// The score the definition gives one ordering: the exact Mann-Whitney p-value at the Pettitt
+/// split, or "no evidence" when there is no split or it leaves fewer than `min_regime` values on
+/// a side.
+fn reference_selected_p(v: &[f64], min_regime: usize, cache: &mut TailCache) -> f64 {
+    match rf::pettitt(v) {
+        Some(pt) if pt.index.min(v.len() - pt.index) >= min_regime => {
+            rf::mann_whitney(&v[..pt.index], &v[pt.index..], cache).map_or(1.0, |m| m.p)
+        }
+        _ => 1.0,
+    }
+}
+
+thread_local! {
+    /// (sorted tie pattern, min_regime) -> sorted scores of every distinct ordering of it
+    static ORBITS: std::cell::RefCell<HashMap<(Vec<u64>, usize), Vec<f64>>> = std::cell::RefCell::new(HashMap::new());
+}
+
+fn next_permutation(v: &mut [u64]) -> bool {
+    let n = v.len();
+    if n < 2 {
+        return false;
+    }
+    let mut i = n - 1;
+    while i > 0 && v[i - 1] >= v[i] {
+        i -= 1;
+    }
+    if i == 0 {
+        return false;
+    }
+    let mut j = n - 1;
+    while v[j] <= v[i - 1] {
+        j -= 1;
+    }
+    v.swap(i - 1, j);
+    v[i..].reverse();
+    true
+}
+
+/// Exact check of `adjusted_p` as a permutation p-value: the fraction of ALL distinct orderings
+/// of the observed values whose own selected split scores at least as extreme as the observed
+/// one (each ordering scored by the definition: Pettitt split, exact doubled Mann-Whitney tail,
+/// no evidence below `min_regime`).
+fn check_selection_orbit(x: &[f64], min_regime: usize, cache: &mut TailCache, acc: &mut Acc) {
+    let n = x.len();
+    if n < 2 || 2 * min_regime == n {
+        return; // a single admissible split is reported unadjusted
+    }
+    acc.evaluations += 1;
+    let case = || json!({"function": "selection_orbit", "values": vec_json(x), "min_regime": min_regime});
+    let Some(got) = selection_adjusted_change_point(x, min_regime, permutation_only_calibration()) else {
+        return; // presence is judged by check_selection
+    };
+    let p_obs = reference_selected_p(x, min_regime, cache);
+    let mut key: Vec<u64> = x.iter().map(|v| v.to_bits()).collect();
+    // integer-valued, non-negative data of this family: bit order = numeric order
+    key.sort_unstable();
+    let scores: Vec<f64> = ORBITS.with(|o| {
+        if let Some(s) = o.borrow().get(&(key.clone(), min_regime)) {
+            return s.clone();
+        }
+        let mut perm = key.clone();
+        let mut out = Vec::new();
+        loop {
+            let v: Vec<f64> = perm.iter().map(|b| f64::from_bits(*b)).collect();
+            out.push(reference_selected_p(&v, min_regime, cache));
+            if !next_permutation(&mut perm) {
+                break;
+            }
+        }
+        out.sort_unstable_by(f64::total_cmp);
+        o.borrow_mut().insert((key.clone(), min_regime), out.clone());
+        out
+    });
+    let order = scores.len() as f64;
+    // Scores that are mathematically equal may differ in the last bit between the two
+    // implementations: count with a relative slack on both sides.
+    let e_lo = scores.partition_point(|&p| p < p_obs * (1.0 - 1e-9)) as f64;
+    let e_hi = scores.partition_point(|&p| p <= p_obs * (1.0 + 1e-9)) as f64;
+    let formula = |e: f64| (e / order / (1.0 - PERM_ANALYTIC_WEIGHT)).min(1.0).max(p_obs);
+    let (lo, hi) = (formula(e_lo) * (1.0 - 1e-9), formula(e_hi) * (1.0 + 1e-9));
+    if !(got.adjusted_p >= lo && got.adjusted_p <= hi) {
+        acc.fail(
+            "selection.adjusted_p/permutation-orbit".into(),
+            format!(
+                "adjusted_p = {:e} under the permutation-only calibration; {} to {} of the {} distinct orderings score at least as extreme as the observed one (p = {:e}), i.e. the permutation p-value is in [{:e}, {:e}]",
+                got.adjusted_p, e_lo, e_hi, order, p_obs, lo, hi
+            ),
+            case(),
+        );
+    }
+    acc.out(if e_hi < order { O::SEL_ORBIT_INFORMATIVE } else { O::SEL_ORBIT_ALL_EXTREME });
+}
+
 /// Light check of the selection-adjusted change point: it must report the Pettitt split, the
 /// Mann-Whitney p-value and superiority at that split, and an adjusted p-value in the reportable
 /// range that is no smaller than the tainted one (all documented on the struct / function).
@@ -860,6 +969,7 @@ fn run_sequence(levels: &[u8], cfg: SeqCfg, cache: &mut TailCache, acc: &mut Acc
             for v in vals.iter().take(cfg.rank_maps.min(2)) {
                 check_selection(v, min_regime, cache, acc);
             }
+            check_selection_orbit(&vals[0], min_regime, cache, acc);
         }
     }
     if cfg.two_sample {
@@ -1832,6 +1942,15 @@ fn describe(case: &Value) -> Result<(Value, Vec<String>), String> {
                 a.map_or(json!(null), |a| json!({"index": a.index, "k": fj(a.k_statistic), "p": fj(a.p_value)})),
             )
         }
+        "selection_orbit" => {
+            let x = vecf("values")?;
+            let mr = case.get("min_regime").and_then(Value::as_u64).ok_or("no min_regime")? as usize;
+            check_selection_orbit(&x, mr, &mut cache, &mut acc);
+            (
+                json!({"observed_p_by_definition": fj(reference_selected_p(&x, mr, &mut cache))}),
+                json!(selection_adjusted_change_point(&x, mr, permutation_only_calibration()).map(|r| json!({"index": r.index, "tainted_p": fj(r.tainted_p), "adjusted_p": fj(r.adjusted_p)}))),
+            )
+        }
         "median_f64" => {
             let x = vecf("values")?;
             check_median_f64(&x, &mut acc);
@@ -2163,7 +2282,7 @@ fn main() {
          floor). G: every sequence of 1..={gmax} values over the 11-value table {{-MAX,-1.2e308,-1e308,-9e307,-5e-324,0,5e-324,9e307,1e308,1.2e308,MAX}} \
          (infinite-free extreme magnitudes) for median / median_in_place (result between the two middle order statistics and equal to \
          their half-sum) and Theil-Sen (against the same definition evaluated on the data scaled by 2^-8, skipped where the \
-         defined result is not representable). For n <= {selmax}: selection_adjusted_change_point index/tainted_p/superiority/range. A case is distinct by \
+         defined result is not representable). For n <= {selmax}: selection_adjusted_change_point index/tainted_p/superiority/range, and under a permutation-only calibration adjusted_p against the fraction of ALL distinct orderings of the values whose own Pettitt split scores (exact Mann-Whitney) at least as extreme. A case is distinct by \
          (function family, level sequence or multiset pair or size+pattern, split); it is non-trivial when the function \
          returns a computed result rather than its documented degenerate default (both samples non-empty, n >= 2, len >= 1). \
          Oracle: reference.rs (pair counting, brute-force subset enumeration / u128 counting, exact rationals, libm erfc); \
